@@ -1,6 +1,7 @@
 import SnowModel.Drv.Util
 import SnowModel.Drv.C12
 import SnowModel.Drv.L1
+import SnowModel.Drv.L2
 open Lean
 
 /-- Line protocol: one JSON object per input line with a field `"m"` (method); one JSON line out:
@@ -9,6 +10,7 @@ def dispatch (j : Json) : Except String Json := do
   let m ← SnowModel.Drv.getStr j "m"
   if m.startsWith "c12." then SnowModel.Drv.C12.handle m j
   else if m.startsWith "l1." then SnowModel.Drv.L1.handle m j
+  else if m.startsWith "l2." then SnowModel.Drv.L2.handle m j
   else throw s!"unknown method {m}"
 
 partial def loop (hin hout : IO.FS.Stream) : IO Unit := do
